@@ -32,6 +32,8 @@ type Views struct {
 	// Indexed: every block up to the tip has been given to IndexBlock (otherwise the index is empty
 	// and the backend runs on its fallback paths).
 	Indexed bool
+	// Sample: chains with a big block - query every 4th hash and a handful of indices per block only
+	Sample bool
 }
 
 // NewViews builds the backend; indexed=false leaves the KV index empty.
@@ -183,8 +185,11 @@ func (v *Views) QueryAll() []trace.M {
 	b := v.B
 	unknownHash := common.HexToHash("0xdeadbeef00000000000000000000000000000000000000000000000000000001")
 	hashes := append([]common.Hash{}, v.N.Hashes...)
-	for _, h := range append(hashes, unknownHash) {
+	for hi, h := range append(hashes, unknownHash) {
 		h := h
+		if v.Sample && hi%4 != 0 && h != unknownHash {
+			continue
+		}
 		tok := v.N.TxKnown(h)
 		if h == unknownHash {
 			tok = "unknown"
@@ -210,6 +215,9 @@ func (v *Views) QueryAll() []trace.M {
 		}
 		for i := 0; i <= nEth+1; i++ {
 			i := i
+			if v.Sample && i > 2 && i%7 != 0 && i < nEth-15 {
+				continue
+			}
 			q(trace.M{"m": "txByNumIdx", "h": h, "i": i}, func() (interface{}, error) {
 				t, err := b.GetTransactionByBlockNumberAndIndex(rpctypes.BlockNumber(h), hexutil.Uint(i))
 				return v.txObj(t), err
